@@ -8,7 +8,7 @@ The real-valued fields of the C13 writers, rendered by the bit-exact model of CP
                   `wtdmig` writes for the double-precision types (`num_str.replace("E", "D")`)
   pyF w p x       `'{:w.pf}'.format(x)`
 
-used by  wtdmig `{:16.9E}` (→ `D`),  wttabled1 default `{:16.9E}{:16.9E}`,  wtcoordcards `{:16.8e}`,
+used by  wtdmig `_dmig_field`: `{:16.9E}`, fallback `{:16.8E}` (→ `D`),  wttabled1 default `{:16.9E}{:16.9E}`,  wtcoordcards `{:16.8e}`,
 wtgrids / uset2bulk default `{:16.8f}`.  A value is a finite double given as `(-1)^neg · num / den` (`PyFloat.Dbl`,
 decoded from its bit pattern by `PyFloat.ofBits`).
 -/
@@ -35,8 +35,13 @@ def Dmig.linesF (fmt : Int → Txt) (d : Dmig) : List Txt :=
 /-- the value a term code stands for: the double with that bit pattern (code 0 = `+0.0` = a zero term) -/
 def termVal (v : Int) : Dbl := dblOf v.toNat
 
-/-- the value field of `wtdmig`: `f"{num:16.9E}"`, `E → D` for the double-precision types -/
-def Dmig.fmtR (d : Dmig) (v : Int) : Txt := pyE 16 9 (if d.mtype % 2 = 0 then 'D' else 'E') (termVal v)
+/-- `_dmig_field(num)` (fix 4411a34), then `E → ec`: `f"{num:16.9E}"`, or `f"{num:16.8E}"` when that is longer than the
+16-column field (a negative value with a three-digit exponent) -/
+def dmigFld (ec : Char) (x : Dbl) : Txt :=
+  if (fmtE 9 x).length ≤ 16 then pyE 16 9 ec x else pyE 16 8 ec x
+
+/-- the value field of `wtdmig`: `_dmig_field(num)`, `E → D` for the double-precision types -/
+def Dmig.fmtR (d : Dmig) (v : Int) : Txt := dmigFld (if d.mtype % 2 = 0 then 'D' else 'E') (termVal v)
 
 /-- `wtdmig` of a real / complex valued frame -/
 def Dmig.linesR (d : Dmig) : List Txt := d.linesF d.fmtR
